@@ -36,7 +36,7 @@ func ParseDec(s string) (*big.Rat, bool) {
 			}
 			es = es[1:]
 		}
-		if es == "" || len(es) > 4 {
+		if es == "" || len(es) > 6 {
 			return nil, false
 		}
 		for _, c := range es {
@@ -44,6 +44,9 @@ func ParseDec(s string) (*big.Rat, bool) {
 				return nil, false
 			}
 			exp = exp*10 + int(c-'0')
+		}
+		if exp > 100000 {
+			return nil, false // beyond what a decimal string may say (the decimal library's own bound)
 		}
 		exp *= sign
 	}
